@@ -1279,11 +1279,30 @@ class UGrid(DimensionConvention[UGridKind, UGridIndex]):
                 new_edge_indexes, new_node_indexes,
                 primary_dimension=topology.edge_dimension, fill_value=new_fill_value))
 
-        # Save all the topology variables to one combined dataset
+        # Which rows to keep along each of the mesh dimensions
+        dimension_masks: dict[Hashable, numpy.ndarray] = {
+            topology.node_dimension: ~numpy.ma.getmask(new_node_indexes),
+            topology.face_dimension: ~numpy.ma.getmask(new_face_indexes),
+        }
+        if has_edges:
+            dimension_masks[topology.edge_dimension] = ~numpy.ma.getmask(new_edge_indexes)
+        mesh_dimensions = set(dimension_masks.keys())
+
+        # Save all the topology variables to one combined dataset.
+        # Coordinates defined on the mesh dimensions,
+        # such as node or face coordinates named in a `coordinates` attribute,
+        # are sliced the same way as the data variables are.
         topology_path = work_path / (str(topology.mesh_variable.name) + ".nc")
         topology_dataset = xarray.Dataset(
             data_vars={variable.name: variable for variable in topology_variables},
-            coords=dataset.coords,
+            coords={
+                name: coordinate.isel({
+                    dim: dimension_mask
+                    for dim, dimension_mask in dimension_masks.items()
+                    if dim in coordinate.dims
+                })
+                for name, coordinate in dataset.coords.items()
+            },
         )
         topology_dataset.to_netcdf(topology_path)
         mfdataset_paths.append(topology_path)
@@ -1293,14 +1312,6 @@ class UGrid(DimensionConvention[UGridKind, UGridIndex]):
         del topology_variables
 
         logger.debug("Slicing data variables...")
-        dimension_masks: dict[Hashable, numpy.ndarray] = {
-            topology.node_dimension: ~numpy.ma.getmask(new_node_indexes),
-            topology.face_dimension: ~numpy.ma.getmask(new_face_indexes),
-        }
-        if has_edges:
-            dimension_masks[topology.edge_dimension] = ~numpy.ma.getmask(new_edge_indexes)
-        mesh_dimensions = set(dimension_masks.keys())
-
         for name, data_array in dataset.data_vars.items():
             data_array_path = work_path / (str(name) + '.nc')
             if name in topology_variable_names:
